@@ -217,6 +217,16 @@ def check_written(path, df, opts, res, counters, scheme, exp_override=None):
         except Exception as e:
             counters["expected_not_computable"] = counters.get("expected_not_computable", 0) + 1
             continue
+        lk = R.logical_kind(col.leaf.se)
+        if lk[0] == "timestamp" and lk[2] is not None and getattr(exp[c].dtype, "kind", None) == "M":
+            # the integers stored for a zone-aware column are UTC instants (whatever the zone), those of a naive column wall-clock readings:
+            # TimestampType.isAdjustedToUTC has to say which, or a reader working from the footer shifts / strips them
+            aware = isinstance(exp[c].dtype, pd.DatetimeTZDtype)
+            counters["timestamp_utc_flags_checked"] = counters.get("timestamp_utc_flags_checked", 0) + 1
+            if aware and str(exp[c].dtype.tz) not in ("UTC", "utc"):
+                counters["timestamp_utc_flags_checked_for_zones_other_than_utc"] = counters.get("timestamp_utc_flags_checked_for_zones_other_than_utc", 0) + 1
+            if bool(lk[2]) != aware:
+                res["failures"].append({"kind": "timestamp_utc_flag_disagrees_with_what_is_stored", "column": name, "isAdjustedToUTC": bool(lk[2]), "input_dtype": str(exp[c].dtype)})
         try:
             gv = R.flat_column(col)
         except StopIteration:
@@ -312,4 +322,5 @@ def run_case(case):
 
 def required(tier):
     return {"validated_pages": 3000, "validated_chunks": 1500, "validated_dict_pages": 100, "validated_v2_pages": 500, "validated_footers": 800,
-            "columns_compared": 1000, "histories_validated": 150, "histories_with_removal_validated": 10, "histories_with_renumbered_parts": 5}
+            "columns_compared": 1000, "histories_validated": 150, "histories_with_removal_validated": 10, "histories_with_renumbered_parts": 5,
+            "timestamp_utc_flags_checked": 100, "timestamp_utc_flags_checked_for_zones_other_than_utc": 20}
